@@ -164,6 +164,7 @@ func c18RefDecode(p []byte, t *c18RefTable) (fields []HeaderField, class int) {
 			t.max = uint32(v)
 			t.evict()
 			pos = next
+			continue // size updates may follow one another at the beginning of a block (RFC 7541 4.2)
 		}
 		first = false
 	}
